@@ -20,24 +20,28 @@ TIMER_SIGS = [-5, -5, 3, 4]
 
 # kind -> weight, per profile
 PROFILES = {
-    "timing": dict(hold=7, timer_add=5, timer_set=2, timer_cancel=2, timers_clear=1, yield_=2, resume=3,
+    "timing": dict(hold=7, timer_add=5, timer_set=2, timer_cancel=2, timers_clear=1, ftimer_add=3, ftimer_cancel=1,
+                   ftimers_clear=2, yield_=2, resume=3,
                    wait_proc=3, wait_ev=3, usched=3, ucancel=1, uresched=1, interrupt=5, stop=2,
                    acquire=3, release=2, preempt=1, bget=1, bput=1, oget=1, oput=1, cwait=1, csignal=1,
                    pacq=1, prel=1, setprio=1, ret=1),
     "mutex": dict(acquire=9, release=7, preempt=4, hold=6, interrupt=2, stop=2, timer_add=3, setprio=1,
-                  ret=1, wait_proc=1),
+                  ret=1, wait_proc=1, ftimer_add=1, ftimers_clear=1),
     "queueing": dict(acquire=4, release=3, pacq=3, prel=2, bget=3, bput=3, oget=3, oput=3, kget=2, kput=2,
                      cwait=3, csignal=2, ctrset=2, hold=5, setprio=4, interrupt=1, timer_add=1, preempt=1),
     "pool": dict(pacq=8, ppre=5, prel=6, hold=5, interrupt=3, timer_add=3, stop=1, setprio=2, preempt=1,
                  acquire=1, release=1, ret=1),
     "wakeup": dict(acquire=4, release=4, pacq=3, ppre=1, prel=3, bget=3, bput=3, oget=3, oput=3, kget=2, kput=2,
-                   kcancel=2, hold=5, timer_add=5, interrupt=4, stop=2, preempt=2, ret=1),
+                   kcancel=2, hold=5, timer_add=5, interrupt=4, stop=2, preempt=2, ret=1, ftimer_add=2, ftimers_clear=1,
+                   ftimer_cancel=1),
     "lifecycle": dict(ret=3, exit_=3, stop=5, wait_proc=6, start=4, timer_add=3, hold=5, acquire=3, release=1,
-                      pacq=2, prel=1, interrupt=2, bget=1, oget=1, cwait=1, yield_=1, usched=1, wait_ev=1),
+                      pacq=2, prel=1, interrupt=2, bget=1, oget=1, cwait=1, yield_=1, usched=1, wait_ev=1,
+                      ftimer_add=2, ftimers_clear=1),
     "buffer": dict(bput=8, bget=8, hold=4, timer_add=4, interrupt=4, stop=1, setprio=1),
     "queue": dict(oput=6, oget=6, kput=6, kget=6, kcancel=3, kreprio=3, kpos=3, opos=2, hold=3, timer_add=3,
                   interrupt=3, stop=1),
-    "condition": dict(cwait=8, csignal=5, ctrset=5, ccancel=2, cremove=1, acquire=3, release=3, pacq=2, prel=2,
+    "condition": dict(cwait=8, csignal=5, ctrset=5, ccancel=2, cremove=1, cunsub=2, csub=2, ftimer_add=1,
+                      acquire=3, release=3, pacq=2, prel=2,
                       bput=2, bget=2, oput=2, oget=2, hold=4, timer_add=3, interrupt=2, stop=1, setprio=1),
     "recording": dict(acquire=4, release=3, preempt=3, pacq=4, ppre=3, prel=3, bput=3, bget=3, oput=3, oget=3,
                       kput=3, kget=3, kcancel=3, hold=5, interrupt=3, timer_add=2, stop=3, rec_on=2, rec_off=2, ret=1),
@@ -67,10 +71,11 @@ NEEDS = {  # op kind -> object kind it needs
     "acquire": "res", "release": "res", "preempt": "res", "pacq": "pool", "ppre": "pool", "prel": "pool",
     "bput": "buf", "bget": "buf", "oput": "oq", "oget": "oq", "opos": "oq", "kput": "pq", "kget": "pq",
     "kcancel": "pq", "kreprio": "pq", "kpos": "pq", "cwait": "cond", "csignal": "cond", "ccancel": "cond",
-    "cremove": "cond",
+    "cremove": "cond", "cunsub": "cond", "csub": "cond",
 }
 DISPATCHER_OK = ["interrupt", "stop", "start", "setprio", "csignal", "ctrset", "ccancel", "cremove", "resume",
-                 "rec_on", "rec_off", "kcancel", "kreprio", "ucancel", "usched"]
+                 "rec_on", "rec_off", "kcancel", "kreprio", "ucancel", "usched", "ftimer_add", "ftimer_cancel",
+                 "ftimers_clear", "cunsub", "csub"]
 
 
 @st.composite
@@ -107,9 +112,11 @@ def scenario(draw, profile, big=False):
         guards.append(r)
     for b in env["buf"] + env["oq"] + env["pq"]:
         guards += [b + ".front", b + ".rear"]
+    links_decl = []
     for c in env["cond"]:
         if guards:
             for g in draw(st.lists(st.sampled_from(guards), max_size=3, unique=True)):
+                links_decl.append((c, g))
                 lines.append("observe %s %s%s" % (c, g, draw(st.sampled_from(["", "", "", " subscribe"]))))
     recordable = env["res"] + env["pool"] + env["buf"] + env["oq"] + env["pq"]
     if recordable and ("rec_on" in weights or draw(st.integers(0, 5)) == 0):
@@ -154,6 +161,8 @@ def scenario(draw, profile, big=False):
             k = "usched"
         if k in ("kcancel", "kreprio", "kpos") and glob["nkput"] == 0:
             k = "kput"
+        if k in ("cunsub", "csub") and not links_decl:
+            k = "csignal"
         pick = lambda kind: draw(st.sampled_from(env[kind]))
 
         def tgt(other=False):
@@ -257,6 +266,14 @@ def scenario(draw, profile, big=False):
             return "%s %s %d" % (k, fhex(draw(st.sampled_from(DUR))), draw(st.sampled_from(TIMER_SIGS)))
         if k == "timers_clear":
             return "timers_clear"
+        if k == "ftimer_add":
+            return "ftimer_add %s %s %d" % (tgt(other=True), fhex(draw(st.sampled_from(DUR))), draw(st.sampled_from(TIMER_SIGS)))
+        if k == "ftimer_cancel":
+            return "ftimer_cancel %s %d" % (tgt(other=True), draw(st.integers(0, 3)))
+        if k == "ftimers_clear":
+            return "ftimers_clear %s" % tgt(other=True)
+        if k in ("cunsub", "csub"):
+            return "%s %s %s" % ((k,) + draw(st.sampled_from(links_decl)))
         if k == "interrupt":
             return "interrupt %s %d %s" % (tgt(), draw(st.sampled_from(USER_SIGS)), draw(PRIOS))
         if k == "resume":
@@ -375,8 +392,9 @@ def coincide(draw):
     """
     d = draw(st.sampled_from([0.0, 0.5, 1.0, 1.0, 2.0]))
     L = ["mode sim", "start 0", "res R0", "pool P0 2", "buf B0 2", "oq Q0 1", "pq K0 1", "cond C0"]
-    for g in draw(st.lists(st.sampled_from(["R0", "P0", "B0.front", "B0.rear", "Q0.front", "K0.front"]),
-                           max_size=2, unique=True)):
+    observed = draw(st.lists(st.sampled_from(["R0", "P0", "B0.front", "B0.rear", "Q0.front", "K0.front"]),
+                             max_size=2, unique=True))
+    for g in observed:
         L.append("observe C0 %s" % g)
     kind = draw(st.sampled_from(["cwait", "cwait", "acquire", "pacq", "bget", "bput", "oget", "oput", "kget",
                                  "kput", "wait_proc", "wait_ev", "hold", "yield"]))
@@ -410,6 +428,8 @@ def coincide(draw):
         L.append("proc p%d prio %s start 0 sprio 0" % (w, draw(PRIOS)))
         if draw(st.integers(0, 4)) > 0:
             L.append("op timer_add %s %d" % (fhex(d), draw(st.sampled_from(TIMER_SIGS))))
+            if draw(st.integers(0, 3)) == 0:
+                L.append("op timer_add %s %d" % (fhex(d + draw(st.sampled_from([0.0, 1.0, 2.0]))), draw(st.sampled_from([3, 4]))))
         L.append("op " + wait_op)
         for _ in range(draw(st.integers(1, 3))):
             L.append("op " + draw(st.sampled_from(after)))
@@ -418,15 +438,23 @@ def coincide(draw):
     acts = ["interrupt p1 %d %s" % (draw(st.sampled_from(USER_SIGS)), draw(PRIOS)), "stop p1 3", "setprio p1 %s" % draw(PRIOS),
             "ccancel C0 p1", "cremove C0 p1", "csignal C0", "ctrset 0 1", "resume p1 %d" % draw(st.sampled_from([0, 5])),
             "stop p0 2", "ucancel 0", "kcancel K0 0", "interrupt p0 9 0"]
+    # somebody else handling the waiter's timers (documented: "pp: usually the calling process itself")
+    acts += ["ftimers_clear p1", "ftimer_add p1 %s %d" % (fhex(draw(st.sampled_from([0.0, 0.0, 1.0]))), draw(st.sampled_from(TIMER_SIGS))),
+             "ftimer_cancel p1 %d" % draw(st.integers(0, 1))]
+    for g in observed:
+        acts += ["cunsub C0 %s" % g, "csub C0 %s" % g]
     if nwait > 1:
-        acts += ["interrupt p2 -2 %s" % draw(PRIOS), "ccancel C0 p2", "stop p2 1", "setprio p2 %s" % draw(PRIOS)]
+        acts += ["interrupt p2 -2 %s" % draw(PRIOS), "ccancel C0 p2", "stop p2 1", "setprio p2 %s" % draw(PRIOS),
+                 "ftimers_clear p2"]
     for _ in range(draw(st.integers(1, 4))):
         a = draw(st.sampled_from(acts))
+        # mostly exactly at d; sometimes earlier, so that what happens at d meets the state it left behind
+        at = d if (d == 0.0 or draw(st.integers(0, 3)) > 0) else d - 0.5
         if draw(st.booleans()):
-            L.append("at %s %s %s" % (fhex(d), draw(PRIOS), a))
+            L.append("at %s %s %s" % (fhex(at), draw(PRIOS), a))
         else:
             L.append("proc p%d prio %s start 0 sprio 0" % (nproc, draw(PRIOS)))
-            L.append("op hold %s" % fhex(d))
+            L.append("op hold %s" % fhex(at))
             L.append("op " + a)
             if draw(st.booleans()):
                 L.append("op " + draw(st.sampled_from(acts)))
